@@ -19,6 +19,7 @@ import (
 )
 
 type effects struct {
+	mat     []func(c *Ctx, s *State) // materialise the named components in a state (so that havoc and frame see them)
 	all     bool
 	heap    map[string]bool // heap key prefixes
 	mem     map[string]bool // element type keys
@@ -27,6 +28,18 @@ type effects struct {
 }
 
 func newEffects() *effects { return &effects{heap: map[string]bool{}, mem: map[string]bool{}} }
+
+func (e *effects) addMem(elem types.Type) {
+	key := typeKey(elem)
+	e.mem[key] = true
+	if srt, ok := scalarSort(elem); ok {
+		e.mat = append(e.mat, func(c *Ctx, s *State) { c.memGet(s, key, srt) })
+	} else if _, isStruct := elem.Underlying().(*types.Struct); isStruct {
+		e.mat = append(e.mat, func(c *Ctx, s *State) {
+			c.leafKeys(key, elem, func(k, srt string) { c.memGet(s, k, srt) }, func(string, *types.Array) {})
+		})
+	}
+}
 
 func (e *effects) setAll(why string) {
 	if !e.all {
@@ -84,7 +97,7 @@ func (c *Ctx) addrEffect(e *effects, a ssa.Value) {
 		case *ssa.IndexAddr:
 			switch t := x.X.Type().Underlying().(type) {
 			case *types.Slice:
-				e.mem[typeKey(t.Elem())] = true
+				e.addMem(t.Elem())
 				return
 			case *types.Pointer:
 				at, ok := t.Elem().Underlying().(*types.Array)
@@ -95,7 +108,7 @@ func (c *Ctx) addrEffect(e *effects, a ssa.Value) {
 				if al, ok := x.X.(*ssa.Alloc); ok && !al.Heap && !sliced(al) {
 					return // local array
 				}
-				e.mem[typeKey(at.Elem())] = true
+				e.addMem(at.Elem())
 				return
 			}
 			e.setAll("index address")
@@ -119,7 +132,7 @@ func (c *Ctx) addrEffect(e *effects, a ssa.Value) {
 // typeEffect: a write to (objects of type t).path
 func (c *Ctx) typeEffect(e *effects, t types.Type, path []string) {
 	if at, ok := t.Underlying().(*types.Array); ok && len(path) == 0 {
-		e.mem[typeKey(at.Elem())] = true
+		e.addMem(at.Elem())
 		return
 	}
 	key := typeKey(t)
@@ -127,6 +140,36 @@ func (c *Ctx) typeEffect(e *effects, t types.Type, path []string) {
 		key += "." + strings.Join(path, ".")
 	}
 	e.heap[key] = true
+	{
+		// leaves below the written location
+		ft0 := t
+		okp := true
+		for _, p := range path {
+			st, ok := ft0.Underlying().(*types.Struct)
+			if !ok {
+				okp = false
+				break
+			}
+			found := false
+			for i := 0; i < st.NumFields(); i++ {
+				if st.Field(i).Name() == p {
+					ft0 = st.Field(i).Type()
+					found = true
+					break
+				}
+			}
+			if !found {
+				okp = false
+				break
+			}
+		}
+		if okp {
+			k0, t0 := key, ft0
+			e.mat = append(e.mat, func(c *Ctx, s *State) {
+				c.leafKeys(k0, t0, func(k, srt string) { c.heapGet(s, k, srt) }, func(string, *types.Array) {})
+			})
+		}
+	}
 	// array-typed fields below the written location live in element memory
 	ft := t
 	for _, p := range path {
@@ -150,7 +193,7 @@ func (c *Ctx) arrayElemsBelow(e *effects, t types.Type, depth int) {
 	}
 	switch u := t.Underlying().(type) {
 	case *types.Array:
-		e.mem[typeKey(u.Elem())] = true
+		e.addMem(u.Elem())
 	case *types.Struct:
 		for i := 0; i < u.NumFields(); i++ {
 			c.arrayElemsBelow(e, u.Field(i).Type(), depth+1)
@@ -183,7 +226,7 @@ func (c *Ctx) contractEffect(e *effects, ct *Contract, names calleeNames) {
 			if id != nil && id.Name == "mem" {
 				if t := typeOf(x.Args[0]); t != nil {
 					if sl, ok := t.Underlying().(*types.Slice); ok {
-						e.mem[typeKey(sl.Elem())] = true
+						e.addMem(sl.Elem())
 						continue
 					}
 				}
@@ -254,6 +297,19 @@ func (c *Ctx) staticType(x ast.Expr, names calleeNames) types.Type {
 		}
 	case *ast.ParenExpr:
 		return c.staticType(e.X, names)
+	case *ast.CallExpr:
+		if id, ok := e.Fun.(*ast.Ident); ok && id.Name == "as" && len(e.Args) == 2 {
+			if bl, ok := e.Args[1].(*ast.BasicLit); ok {
+				tn := strings.Trim(bl.Value, "\"`")
+				env := &CEnv{c: c, pkg: names.pkg}
+				var t types.Type
+				func() {
+					defer func() { recover() }()
+					t = c.resolveTypeName(env, tn)
+				}()
+				return t
+			}
+		}
 	case *ast.StarExpr:
 		if t := c.staticType(e.X, names); t != nil {
 			if pt, ok := t.Underlying().(*types.Pointer); ok {
@@ -361,7 +417,7 @@ func (c *Ctx) callEffect(e *effects, fn *ssa.Function, com *ssa.CallCommon, dept
 		switch b.Name() {
 		case "copy", "append":
 			if sl, ok := com.Args[0].Type().Underlying().(*types.Slice); ok {
-				e.mem[typeKey(sl.Elem())] = true
+				e.addMem(sl.Elem())
 			} else {
 				e.setAll("builtin " + b.Name())
 			}
@@ -429,6 +485,9 @@ func (c *Ctx) havocEffects(s *State, e *effects, reach string) {
 	if e.all {
 		c.havocAll(s, reach)
 		return
+	}
+	for _, m := range e.mat {
+		m(c, s)
 	}
 	c.touchAll(s)
 	g := 0
